@@ -75,6 +75,12 @@ def reset_div():
     del div_axioms[:]
 
 
+def div_hints():
+    """under-approximating hints for queries expected SATISFIABLE (vacuity / reachability witnesses): divisor 1 makes the
+    64-bit multiplication of the lemma trivial.  A model found with the hints is a model without them."""
+    return [bv(b) == 1 for (_q, _r, _a, b) in _div_memo.values() if not is_c(b)]
+
+
 def _qr(a, b):
     k = (a if is_c(a) else ('t', a.get_id()), b if is_c(b) else ('t', b.get_id()))
     if k not in _div_memo:
